@@ -6,6 +6,7 @@ package cacheprop
 
 import (
 	"fmt"
+	"math"
 
 	"pgregory.net/rapid"
 	"verif/harness/internal/gn"
@@ -27,20 +28,20 @@ type Upd struct {
 
 // Noti is the spec of one notification.
 type Noti struct {
-	TS      TS          `json:"ts"`
-	Atomic  bool        `json:"atomic,omitempty"`
-	Origin  string      `json:"origin,omitempty"`
-	Prefix  []gn.Elem   `json:"prefix,omitempty"`
-	Element bool        `json:"element,omitempty"` // deprecated string encoding for prefix and paths
-	Share   bool        `json:"share,omitempty"`   // reuse one prefix object (with spare capacity) for equal prefixes
+	TS      TS        `json:"ts"`
+	Atomic  bool      `json:"atomic,omitempty"`
+	Origin  string    `json:"origin,omitempty"`
+	Prefix  []gn.Elem `json:"prefix,omitempty"`
+	Element bool      `json:"element,omitempty"` // deprecated string encoding for prefix and paths
+	Share   bool      `json:"share,omitempty"`   // reuse one prefix object (with spare capacity) for equal prefixes
 	// PathEnc: encoding of the update/delete paths when it differs from the prefix's: "elem"
 	// (structured), "element" (deprecated strings), "both" (structured plus stray deprecated
 	// strings, which every reader must ignore when elem is present); "" = as the prefix.
 	// PrefixBoth: the prefix carries stray deprecated strings next to its structured elements.
-	PathEnc    string `json:"path_enc,omitempty"`
-	PrefixBoth bool   `json:"prefix_both,omitempty"`
-	Updates []Upd       `json:"updates,omitempty"`
-	Deletes [][]gn.Elem `json:"deletes,omitempty"`
+	PathEnc    string      `json:"path_enc,omitempty"`
+	PrefixBoth bool        `json:"prefix_both,omitempty"`
+	Updates    []Upd       `json:"updates,omitempty"`
+	Deletes    [][]gn.Elem `json:"deletes,omitempty"`
 	// Pick>0 re-addresses the first update (or, without updates, the first
 	// delete) to the Pick-th stored leaf of the target (sorted order, modulo
 	// the number of leaves): origin is dropped, the prefix becomes the first
@@ -134,7 +135,7 @@ func genElem(t *rapid.T, glob, small bool) gn.Elem {
 		e.Keys = map[string]string{}
 		nk := rapid.IntRange(1, 2).Draw(t, "nkeys")
 		for i := 0; i < nk; i++ {
-			k := rapid.SampledFrom([]string{"k", "j"}).Draw(t, "key")
+			k := rapid.SampledFrom([]string{"k", "j", "K"}).Draw(t, "key")
 			vals := []string{"1", "2"}
 			if glob {
 				vals = []string{"1", "2", "*"}
@@ -194,6 +195,10 @@ func genVal(t *rapid.T) gn.Val {
 }
 
 func genTS(t *rapid.T, thr int64) TS {
+	if thr == 0 && rapid.IntRange(0, 13).Draw(t, "extreme-ts") == 0 {
+		// (not with a future threshold: the cache documents that it takes a latest timestamp <= 0 for "none yet")
+		return TS{Mode: "abs", D: rapid.SampledFrom([]int64{-(1 << 62) - 5, -7, 3, 1<<62 + 9, math.MaxInt64 - 1, math.MaxInt64, math.MinInt64 + 1}).Draw(t, "abs")}
+	}
 	mode := rapid.SampledFrom([]string{"leaf", "leaf", "leaf", "latest", "now"}).Draw(t, "tsmode")
 	ds := []int64{-3, -1, 0, 0, 1, 1, 2, 7}
 	if thr > 0 {
